@@ -559,7 +559,7 @@ def targeted_histories(ctx, camp):
                         res2 = w.run(None, None)
                         ops = [(k, i) for k, i, _ in w.log if k in ("call", "read", "write")]
                         utd_s, _ = w.up_to_date(sigma, None)
-                        if res2[0] == "ok" and ops and not [i for i, m in enumerate(w.meta) if m["is_src"] and not utd_s[i]]:
+                        if res2[0] == "ok" and ops and not w.tainted and not [i for i, m in enumerate(w.meta) if m["is_src"] and not utd_s[i]]:
                             camp.add("C05", "repeat-not-idempotent", "a repeated run with no output performed %r" % (ops[:6],),
                                      {"meta": w.meta, "sigma": sigma, "ops": ops, "world": name})
                 elif op == "update":
@@ -605,7 +605,7 @@ def history_campaign(ctx, camp, n_worlds, steps, props_cut=True):
                     # keeps its dependents out of date by the property's own definition
                     utd_s, _ = w.up_to_date(sigma, None)
                     stale_src = [i for i, m in enumerate(w.meta) if m["is_src"] and not utd_s[i]]
-                    if res2[0] == "ok" and ops and not stale_src:
+                    if res2[0] == "ok" and ops and not stale_src and not w.tainted:
                         camp.add("C05", "repeat-not-idempotent", "a repeated run with no output performed %r" % (ops[:6],),
                                  {"meta": w.meta, "sigma": sigma, "ops": ops})
             elif op == "update_source":
